@@ -23,7 +23,7 @@ DATASETS = ["p2pkh", "p2sh-p2wpkh", "p2sh-multisig-2-of-2", "p2sh-multisig-inval
 _dataset_cache = {}
 
 
-def dataset_files(name, repo="/repo"):
+def dataset_files(name, repo=proto.REPO_ROOT):
     key = (repo, name)
     if key not in _dataset_cache:
         out = []
